@@ -37,19 +37,43 @@ Proof. unfold first_out. intro H. apply find_some in H as [_ H]. destruct (is_ba
 Lemma first_err_bang l r : first_err l = Some r -> is_bang r = true.
 Proof. unfold first_err. intro H. apply find_some in H as [_ H]. exact H. Qed.
 
+(* ---------- files ---------- *)
+Lemma file_get_set fs f d : file_get (file_set fs f d) f = Some d.
+Proof.
+  induction fs as [|[g d'] fs IH]; cbn.
+  - rewrite N.eqb_refl. reflexivity.
+  - destruct (N.eqb_spec f g) as [->|NE]; cbn.
+    + rewrite N.eqb_refl. reflexivity.
+    + destruct (N.eqb_spec f g); [congruence|exact IH].
+Qed.
+
+Lemma file_get_set_other fs f g d : f <> g -> file_get (file_set fs g d) f = file_get fs f.
+Proof.
+  intro NE. induction fs as [|[h d'] fs IH]; cbn.
+  - destruct (N.eqb_spec f g); [congruence|reflexivity].
+  - destruct (N.eqb_spec g h) as [->|NE2]; cbn.
+    + destruct (N.eqb_spec f h); [congruence|reflexivity].
+    + destruct (N.eqb_spec f h); [reflexivity|exact IH].
+Qed.
+
 (* ---------- the wiring lemma ---------- *)
 Definition stream_of (i : nat) (d : dest) : stream :=
-  match d with ToOut => SParentOut | ToErr => SParentErr | ToNext => SStdin (S i) | Nowhere => SNull end.
+  match d with
+  | ToOut => SParentOut | ToErr => SParentErr | ToNext => SStdin (S i) | ToPipe k => SPipe k | Nowhere => SNull
+  end.
 
-Lemma wire_doc n i s : (s_link s = Pipe -> S i <> n) ->
+Lemma wire_doc n i s : (s_link s <> Semi -> S i <> n) ->
   wire n i s = (stream_of i (doc_out s), stream_of i (doc_err s)).
 Proof.
   intro HP. unfold wire, doc_out, doc_err.
   destruct (parse_redirs_first (s_redirs s)) as [Ho He]. rewrite Ho, He.
+  assert (NS : s_link s <> Semi -> next_stdin n i = SStdin (S i)).
+  { intro L. unfold next_stdin. destruct (Nat.eqb_spec (S i) n) as [E|E]; [exfalso; exact (HP L E)|reflexivity]. }
   assert (D : default_stdout n i (s_link s) = stream_of i (plain_out (s_link s))).
-  { unfold default_stdout, plain_out, next_stdin. destruct (s_link s); [|reflexivity].
-    destruct (Nat.eqb_spec (S i) n) as [E|E]; [exfalso; apply HP; [reflexivity|exact E]|reflexivity]. }
-  unfold default_stderr, next_stderr. rewrite D.
+  { unfold default_stdout, plain_out. destruct (s_link s) eqn:L; try reflexivity. apply NS. discriminate. }
+  assert (D' : default_stderr n i (s_link s) = stream_of i (plain_err (s_link s))).
+  { unfold default_stderr, plain_err. destruct (s_link s) eqn:L; try reflexivity. apply NS. discriminate. }
+  rewrite D, D'.
   destruct (first_out (s_redirs s)) as [ro|] eqn:Fo, (first_err (s_redirs s)) as [re|] eqn:Fe;
     try (apply first_out_not_bang in Fo); try (apply first_err_bang in Fe);
     try destruct ro; try destruct re; try discriminate; reflexivity.
@@ -57,14 +81,43 @@ Qed.
 
 (* ---------- writes ---------- *)
 Lemma dest_eqb_refl d : dest_eqb d d = true.
-Proof. destruct d; reflexivity. Qed.
+Proof. destruct d; try reflexivity. apply N.eqb_refl. Qed.
+
+Lemma dest_eqb_eq a b : dest_eqb a b = true <-> a = b.
+Proof.
+  destruct a, b; cbn; split; intro H; try reflexivity; try discriminate.
+  - apply N.eqb_eq in H. subst. reflexivity.
+  - inversion H. apply N.eqb_refl.
+Qed.
 
 Definition pick (d d' : dest) (x : bytes) : bytes := if dest_eqb d d' then x else [].
 
-Lemma write_out i d x st : st_out (write (stream_of i d) x st) = st_out st ++ pick d ToOut x.
-Proof. destruct d; cbn; rewrite ?app_nil_r; reflexivity. Qed.
-Lemma write_err i d x st : st_err (write (stream_of i d) x st) = st_err st ++ pick d ToErr x.
-Proof. destruct d; cbn; rewrite ?app_nil_r; reflexivity. Qed.
+(* what has been delivered to destination d so far *)
+Definition proj (d : dest) (st : state) : bytes :=
+  match d with
+  | ToOut => st_out st
+  | ToErr => st_err st
+  | ToPipe k => pipe_get (st_pipes st) k
+  | Nowhere => st_null st
+  | ToNext => []
+  end.
+
+Lemma pipe_get_set ps k k' x :
+  pipe_get (file_set ps k x) k' = if N.eqb k k' then x else pipe_get ps k'.
+Proof.
+  unfold pipe_get. destruct (N.eqb_spec k k') as [->|NE].
+  - rewrite file_get_set. reflexivity.
+  - rewrite file_get_set_other by congruence. reflexivity.
+Qed.
+
+Lemma write_proj i d' d x st : d <> ToNext ->
+  proj d (write (stream_of i d') x st) = proj d st ++ pick d' d x.
+Proof.
+  intro ND. unfold pick.
+  destruct d', d; try congruence; cbn; rewrite ?app_nil_r; try reflexivity.
+  rewrite pipe_get_set. destruct (N.eqb_spec k k0) as [->|NE]; [reflexivity|rewrite app_nil_r; reflexivity].
+Qed.
+
 Lemma write_fs i d x st : st_fs (write (stream_of i d) x st) = st_fs st.
 Proof. destruct d; reflexivity. Qed.
 Lemma write_pin i d x st : st_pin (write (stream_of i d) x st) = st_pin st.
@@ -103,118 +156,128 @@ Proof. reflexivity. Qed.
 Lemma sel_nil d s : sel d s [] [] = [].
 Proof. unfold sel. destruct (dest_eqb (doc_out s) d), (dest_eqb (doc_err s) d); reflexivity. Qed.
 
-Lemma doc_out_next s : doc_out s = ToNext -> s_link s = Pipe.
+Lemma sel_pick d s o e : sel d s o e = pick (doc_out s) d o ++ pick (doc_err s) d e.
+Proof. reflexivity. Qed.
+
+Lemma doc_out_next s : doc_out s = ToNext -> s_link s <> Semi.
 Proof.
-  unfold doc_out, plain_out. destruct (first_out (s_redirs s)) as [[]|]; destruct (s_link s); intro H; try discriminate; reflexivity.
+  unfold doc_out, plain_out. destruct (first_out (s_redirs s)) as [[]|]; destruct (s_link s); intro H; try discriminate; congruence.
 Qed.
-Lemma doc_err_next s : doc_err s = ToNext -> s_link s = Pipe.
+Lemma doc_err_next s : doc_err s = ToNext -> s_link s <> Semi.
 Proof.
-  unfold doc_err, plain_out. destruct (first_err (s_redirs s)) as [[]|]; destruct (s_link s); intro H; try discriminate; reflexivity.
+  unfold doc_err, plain_out, plain_err. destruct (first_err (s_redirs s)) as [[]|]; destruct (s_link s); intro H; try discriminate; congruence.
 Qed.
 
 Lemma sel_next_semi s o e : s_link s = Semi -> sel ToNext s o e = [].
 Proof.
   intro L. unfold sel.
   destruct (dest_eqb (doc_out s) ToNext) eqn:A.
-  { destruct (doc_out s) eqn:D; try discriminate. apply doc_out_next in D. congruence. }
+  { apply dest_eqb_eq in A. apply doc_out_next in A. congruence. }
   destruct (dest_eqb (doc_err s) ToNext) eqn:B.
-  { destruct (doc_err s) eqn:D; try discriminate. apply doc_err_next in D. congruence. }
+  { apply dest_eqb_eq in B. apply doc_err_next in B. congruence. }
   reflexivity.
 Qed.
 
 Definition input_of (prev : option link) (i : nat) (st : state) : bytes :=
   if is_method prev then nth i (st_ins st) [] else [].
 
-(* main invariant: from any reachable intermediate state, the rest of the block
-   adds to the block's stdout / stderr / files exactly what `expected` says *)
+(* main invariant: from any reachable intermediate state, the rest of the block delivers to
+   every destination exactly what `collect` says, and leaves the files `expected_fs` says *)
 Lemma run_from_expected l : forall n i prev st,
   n = (i + length l)%nat ->
   length (st_ins st) = n ->
   last_link l = Semi ->
   (forall j, (i < j)%nat -> nth j (st_ins st) [] = []) ->
-  let '(out, err, fs) := expected (input_of prev i st) l (st_fs st) in
   let st' := run_from n i prev l st in
-  st_out st' = st_out st ++ out /\ st_err st' = st_err st ++ err /\ st_fs st' = fs /\ st_pin st' = st_pin st.
+  (forall d, d <> ToNext -> proj d st' = proj d st ++ collect d (input_of prev i st) l) /\
+  st_fs st' = expected_fs (input_of prev i st) l (st_fs st) /\ st_pin st' = st_pin st.
 Proof.
   induction l as [|s l IH]; intros n i prev st Hn Hlen Hlast Hempty.
-  - cbn. rewrite !app_nil_r. repeat split.
-  - cbn [run_from expected].
+  - cbn. repeat split. intros d _. rewrite app_nil_r. reflexivity.
+  - cbn [run_from collect expected_fs].
     set (carry := input_of prev i st).
-    assert (HP : s_link s = Pipe -> S i <> n).
+    assert (HP : s_link s <> Semi -> S i <> n).
     { intro P. cbn [length] in Hn. destruct l as [|s' l']; [rewrite last_link_single in Hlast; congruence|cbn [length] in Hn; lia]. }
     assert (Hlast' : last_link l = Semi).
     { destruct l as [|s' l']; [reflexivity|]. rewrite last_link_cons in Hlast by discriminate. exact Hlast. }
-    (* the state after this command, described through the documentation-shaped functions *)
-    set (oe := match s_act s with Emit o e => (carry ++ o, e) | _ => ([], []) end).
+    set (oe := stage_oe carry s).
     set (fs1 := match s_act s with
                 | Trunc f => file_set (st_fs st) f carry
                 | Append f => file_set (st_fs st) f (match file_get (st_fs st) f with Some old => old ++ carry | None => carry end)
                 | Emit _ _ => st_fs st
                 end).
     set (st1 := run_stage n i prev s st).
-    assert (S1 : st_out st1 = st_out st ++ sel ToOut s (fst oe) (snd oe) /\
-                 st_err st1 = st_err st ++ sel ToErr s (fst oe) (snd oe) /\
+    assert (S1 : (forall d, d <> ToNext -> proj d st1 = proj d st ++ sel d s (fst oe) (snd oe)) /\
                  st_fs st1 = fs1 /\ st_pin st1 = st_pin st /\
                  length (st_ins st1) = n /\
                  (forall j, (S i < j)%nat -> nth j (st_ins st1) [] = []) /\
                  input_of (Some (s_link s)) (S i) st1 = sel ToNext s (fst oe) (snd oe)).
-    { subst st1 oe fs1. unfold run_stage. fold (input_of prev i st). fold carry.
+    { subst st1 oe fs1. unfold run_stage, stage_oe. fold (input_of prev i st). fold carry.
       rewrite (wire_doc n i s HP).
       destruct (s_act s) as [o e|f|f]; cbn [fst snd].
       - (* Emit *)
-        rewrite write_out, write_out, write_err, write_err, !write_fs, !write_pin, !write_ins.
-        unfold sel, pick. rewrite <- !app_assoc.
+        rewrite !write_fs, !write_pin, !write_ins.
         repeat split.
+        + intros d ND. rewrite !write_proj by exact ND. rewrite sel_pick, app_assoc. reflexivity.
         + destruct (doc_err s), (doc_out s); cbn [st_ins]; rewrite ?app_nth_length; exact Hlen.
         + intros j Hj.
           assert (E0 : nth j (st_ins st) [] = []) by (apply Hempty; lia).
           destruct (doc_err s), (doc_out s); cbn [st_ins]; rewrite ?nth_app_nth_other by lia; exact E0.
-        + unfold input_of. destruct (s_link s) eqn:L; cbn [is_method].
-          * assert (Hlt : (S i < length (st_ins st))%nat).
-            { rewrite Hlen. specialize (HP eq_refl). cbn [length] in Hn. lia. }
+        + unfold input_of. destruct (is_method (Some (s_link s))) eqn:M.
+          * assert (LS : s_link s <> Semi) by (destruct (s_link s); [discriminate|discriminate|discriminate M]).
+            assert (Hlt : (S i < length (st_ins st))%nat).
+            { rewrite Hlen. specialize (HP LS). cbn [length] in Hn. lia. }
             assert (E0 : nth (S i) (st_ins st) [] = []) by (apply Hempty; lia).
-            rewrite !write_ins.
+            rewrite !write_ins. unfold sel.
             destruct (doc_err s), (doc_out s); cbn [dest_eqb];
               rewrite ?nth_app_nth_same by (rewrite ?app_nth_length; exact Hlt);
               rewrite ?E0, ?app_nil_r; cbn [app]; rewrite ?app_nil_r; reflexivity.
-          * assert (Z : sel ToNext s (carry ++ o) e = []) by (apply sel_next_semi; exact L).
-            unfold sel in Z. symmetry. exact Z.
+          * assert (L : s_link s = Semi) by (destruct (s_link s); [discriminate M|discriminate M|reflexivity]).
+            symmetry. apply sel_next_semi. exact L.
       - (* Trunc *)
-        cbn. rewrite !sel_nil, !app_nil_r. repeat split; try exact Hlen.
+        cbn. repeat split; try exact Hlen.
+        + intros d _. rewrite sel_nil, app_nil_r. destruct d; reflexivity.
         + intros j Hj. apply Hempty. lia.
-        + unfold input_of. destruct (is_method (Some (s_link s))); [apply Hempty; lia|reflexivity].
+        + rewrite sel_nil. unfold input_of. destruct (is_method (Some (s_link s))); [apply Hempty; lia|reflexivity].
       - (* Append *)
-        cbn. rewrite !sel_nil, !app_nil_r. repeat split; try exact Hlen.
+        cbn. repeat split; try exact Hlen.
+        + intros d _. rewrite sel_nil, app_nil_r. destruct d; reflexivity.
         + intros j Hj. apply Hempty. lia.
-        + unfold input_of. destruct (is_method (Some (s_link s))); [apply Hempty; lia|reflexivity].
+        + rewrite sel_nil. unfold input_of. destruct (is_method (Some (s_link s))); [apply Hempty; lia|reflexivity].
     }
-    destruct S1 as (So & Se & Sf & Sp & Sl & Sz & Si).
+    destruct S1 as (Sd & Sf & Sp & Sl & Sz & Si).
     specialize (IH n (S i) (Some (s_link s)) st1 ltac:(cbn [length] in Hn; lia) Sl Hlast' Sz).
-    rewrite Si, Sf in IH.
-    destruct oe as [o e]. cbn [fst snd] in *.
-    destruct (expected (sel ToNext s o e) l fs1) as [[out' err'] fs2].
-    cbn zeta in IH. destruct IH as (Io & Ie & If & Ip).
-    fold st1. rewrite Io, Ie, If, Ip, So, Se, Sp, <- !app_assoc. repeat split.
+    cbn zeta in IH. rewrite Si, Sf in IH. destruct IH as (Id & If & Ip).
+    fold oe. destruct oe as [o e] eqn:OE. cbn [fst snd] in *.
+    fold st1. repeat split.
+    + intros d ND. rewrite (Id d ND), (Sd d ND), app_assoc. reflexivity.
+    + rewrite If. subst fs1. reflexivity.
+    + rewrite Ip, Sp. reflexivity.
 Qed.
 
 Lemma init_ins_empty n j fs : nth j (st_ins (init_state n fs)) [] = [].
 Proof.
-  cbn [init_state st_ins]. revert j. induction n as [|n IH]; intro j; destruct j; cbn; try reflexivity. apply IH.
+  cbn [init_state upd st_ins]. revert j. induction n as [|n IH]; intro j; destruct j; cbn; try reflexivity. apply IH.
 Qed.
 
 (* the whole block, from the initial state *)
 Lemma run_block_expected l fs : last_link l = Semi ->
   exists st, run_block l fs = Ok st /\
-    let '(out, err, fs') := expected [] l fs in
-    st_out st = out /\ st_err st = err /\ st_fs st = fs' /\ st_pin st = [].
+    st_out st = collect ToOut [] l /\ st_err st = collect ToErr [] l /\
+    (forall k, pipe_get (st_pipes st) k = collect (ToPipe k) [] l) /\
+    st_fs st = expected_fs [] l fs /\ st_pin st = [].
 Proof.
   intro L. unfold run_block. rewrite L. eexists; split; [reflexivity|].
   pose proof (run_from_expected l (length l) O None (init_state (length l) fs) eq_refl
-                ltac:(cbn [init_state st_ins]; apply repeat_length) L
+                ltac:(cbn [init_state upd st_ins]; apply repeat_length) L
                 ltac:(intros; apply init_ins_empty)) as H.
-  unfold input_of in H. cbn [is_method init_state st_fs] in H.
-  destruct (expected [] l fs) as [[out err] fs'].
-  cbn zeta in H. destruct H as (Ho & He & Hf & Hp). cbn in Ho, He, Hp. repeat split; assumption.
+  cbn zeta in H. unfold input_of in H. cbn [is_method] in H. destruct H as (Hd & Hf & Hp).
+  repeat split.
+  - exact (Hd ToOut ltac:(discriminate)).
+  - exact (Hd ToErr ltac:(discriminate)).
+  - intro k. exact (Hd (ToPipe k) ltac:(discriminate)).
+  - exact Hf.
+  - exact Hp.
 Qed.
 
 Lemma obytes_eqb_refl a : obytes_eqb a a = true.
@@ -228,87 +291,100 @@ Lemma model_meets_spec l fs :
   spec_ok {| c_stages := l; c_files := fs; c_obs := model_obs l fs |} = true.
 Proof.
   unfold spec_ok. cbn [c_stages c_files c_obs].
-  destruct (last_link l) eqn:L; [reflexivity|].
-  destruct (run_block_expected l fs L) as (st & R & H).
-  unfold model_obs. rewrite R.
-  destruct (expected [] l fs) as [[out err] fs'].
-  destruct H as (Ho & He & Hf & _). cbn [o_kind o_out o_err o_files].
-  rewrite Ho, He, Hf, !bytes_eqb_refl, files_eqb_refl. reflexivity.
+  destruct (last_link l) eqn:L; try reflexivity.
+  destruct (run_block_expected l fs L) as (st & R & Ho & He & Hk & Hf & _).
+  unfold model_obs. rewrite R. cbn [o_kind o_out o_err o_files o_pipes].
+  rewrite Ho, He, Hf, !bytes_eqb_refl, files_eqb_refl. cbn [N.eqb andb].
+  apply forallb_forall. intros k _. rewrite Hk. apply bytes_eqb_refl.
 Qed.
 
 (* nothing is ever written into the block's own stdin (where the old `<!out>` wiring lost bytes) *)
 Lemma nothing_lost_in_parent_stdin l fs st : run_block l fs = Ok st -> st_pin st = [].
 Proof.
   intro R. assert (L : last_link l = Semi).
-  { unfold run_block in R. destruct (last_link l); [discriminate|reflexivity]. }
-  destruct (run_block_expected l fs L) as (st' & R' & H). rewrite R in R'. inversion R'; subst st'.
-  destruct (expected [] l fs) as [[out err] fs']. tauto.
+  { unfold run_block in R. destruct (last_link l); try discriminate; reflexivity. }
+  destruct (run_block_expected l fs L) as (st' & R' & H). rewrite R in R'. inversion R'; subst st'. tauto.
 Qed.
 
-(* ---------- the statements of the property for one command, any position ---------- *)
-(* one emitting command followed by nothing *)
+(* ---------- the statements of the property for one command ---------- *)
 Definition one (rs : list rname) (o e : bytes) : list stage :=
   [{| s_act := Emit o e; s_redirs := rs; s_link := Semi |}].
 
-Lemma single_command rs o e fs :
-  exists st, run_block (one rs o e) fs = Ok st /\
-    st_out st = sel ToOut (hd {| s_act := Emit o e; s_redirs := rs; s_link := Semi |} (one rs o e)) o e /\
-    st_err st = sel ToErr (hd {| s_act := Emit o e; s_redirs := rs; s_link := Semi |} (one rs o e)) o e /\
-    st_fs st = fs.
-Proof.
-  destruct (run_block_expected (one rs o e) fs eq_refl) as (st & R & H).
-  exists st. split; [exact R|]. cbn in H. rewrite !app_nil_r in H. cbn [hd one]. tauto.
-Qed.
+Ltac one_cmd rs o e fs :=
+  destruct (run_block_expected (one rs o e) fs eq_refl) as (st & R & Ho & He & Hk & Hf & _);
+  exists st; cbn in Ho, He, Hf; repeat rewrite app_nil_r in Ho; repeat rewrite app_nil_r in He; repeat split; try assumption.
+
+Lemma no_redirect o e fs : exists st, run_block (one [] o e) fs = Ok st /\ st_out st = o /\ st_err st = e /\ st_fs st = fs.
+Proof. one_cmd (@nil rname) o e fs. Qed.
 
 Lemma err_redirect o e fs : exists st, run_block (one [R_err] o e) fs = Ok st /\ st_out st = [] /\ st_err st = o ++ e /\ st_fs st = fs.
-Proof. destruct (single_command [R_err] o e fs) as (st & R & A & B & C). exists st. cbn in A, B. tauto. Qed.
+Proof. one_cmd [R_err] o e fs. Qed.
 
 Lemma bang_out_redirect o e fs : exists st, run_block (one [R_bout] o e) fs = Ok st /\ st_out st = o ++ e /\ st_err st = [] /\ st_fs st = fs.
-Proof. destruct (single_command [R_bout] o e fs) as (st & R & A & B & C). exists st. cbn in A, B. tauto. Qed.
+Proof. one_cmd [R_bout] o e fs. Qed.
 
 Lemma null_redirects o e fs :
   (exists st, run_block (one [R_null] o e) fs = Ok st /\ st_out st = [] /\ st_err st = e /\ st_fs st = fs) /\
   (exists st, run_block (one [R_bnull] o e) fs = Ok st /\ st_out st = o /\ st_err st = [] /\ st_fs st = fs) /\
   (exists st, run_block (one [R_null; R_bnull] o e) fs = Ok st /\ st_out st = [] /\ st_err st = [] /\ st_fs st = fs).
 Proof.
-  repeat split.
-  - destruct (single_command [R_null] o e fs) as (st & R & A & B & C). exists st. cbn in A, B. tauto.
-  - destruct (single_command [R_bnull] o e fs) as (st & R & A & B & C). exists st. cbn in A, B. rewrite app_nil_r in A. tauto.
-  - destruct (single_command [R_null; R_bnull] o e fs) as (st & R & A & B & C). exists st. cbn in A, B. tauto.
+  split; [|split].
+  - one_cmd [R_null] o e fs.
+  - one_cmd [R_bnull] o e fs.
+  - one_cmd [R_null; R_bnull] o e fs.
 Qed.
 
-Lemma no_redirect o e fs : exists st, run_block (one [] o e) fs = Ok st /\ st_out st = o /\ st_err st = e /\ st_fs st = fs.
-Proof. destruct (single_command [] o e fs) as (st & R & A & B & C). exists st. cbn in A, B. rewrite app_nil_r in A. tauto. Qed.
+(* both streams redirected at once, in either order: `<err> <!out>` swaps them,
+   `<err> <!null>` keeps only stdout (on stderr), `<null> <!out>` keeps only stderr (on stdout) *)
+Lemma both_redirected o e fs :
+  (exists st, run_block (one [R_err; R_bout] o e) fs = Ok st /\ st_out st = e /\ st_err st = o /\ st_fs st = fs) /\
+  (exists st, run_block (one [R_bout; R_err] o e) fs = Ok st /\ st_out st = e /\ st_err st = o /\ st_fs st = fs) /\
+  (exists st, run_block (one [R_err; R_bnull] o e) fs = Ok st /\ st_out st = [] /\ st_err st = o /\ st_fs st = fs) /\
+  (exists st, run_block (one [R_null; R_bout] o e) fs = Ok st /\ st_out st = e /\ st_err st = [] /\ st_fs st = fs).
+Proof.
+  split; [|split; [|split]].
+  - one_cmd [R_err; R_bout] o e fs.
+  - one_cmd [R_bout; R_err] o e fs.
+  - one_cmd [R_err; R_bnull] o e fs.
+  - one_cmd [R_null; R_bout] o e fs.
+Qed.
+
+(* user-named pipes as targets: `cmd <p> <!q>` *)
+Lemma named_pipe_redirect o e j k fs : j <> k ->
+  exists st, run_block (one [R_pipe j; R_bpipe k] o e) fs = Ok st /\
+    pipe_get (st_pipes st) j = o /\ pipe_get (st_pipes st) k = e /\ st_out st = [] /\ st_err st = [] /\ st_fs st = fs.
+Proof.
+  intro NE.
+  destruct (run_block_expected (one [R_pipe j; R_bpipe k] o e) fs eq_refl) as (st & R & Ho & He & Hk & Hf & _).
+  exists st. split; [exact R|]. rewrite (Hk j), (Hk k). cbn in *.
+  rewrite N.eqb_refl. destruct (N.eqb_spec k j) as [E|_]; [congruence|].
+  destruct (N.eqb_spec j k) as [E|_]; [congruence|].
+  repeat rewrite N.eqb_refl. repeat rewrite app_nil_r. cbn [app]. repeat split; assumption.
+Qed.
+
+(* `cmd ? next`: stderr of cmd is what next reads, stdout of cmd goes to the block's stderr.
+   (next = the harness command: it copies what it reads to its stdout) *)
+Definition qpiped (rs : list rname) (o e : bytes) : list stage :=
+  [{| s_act := Emit o e; s_redirs := rs; s_link := QPipe |}; {| s_act := Emit [] []; s_redirs := []; s_link := Semi |}].
+
+Lemma qpipe_routes o e fs :
+  exists st, run_block (qpiped [] o e) fs = Ok st /\ st_out st = e /\ st_err st = o /\ st_fs st = fs.
+Proof.
+  destruct (run_block_expected (qpiped [] o e) fs eq_refl) as (st & R & Ho & He & Hk & Hf & _).
+  exists st. cbn in Ho, He, Hf. repeat rewrite app_nil_r in Ho. repeat rewrite app_nil_r in He. repeat split; assumption.
+Qed.
 
 (* `cmd |> f` and `cmd >> f` for a command writing o (any length) to stdout *)
 Definition to_file (act : action) (o e : bytes) : list stage :=
   [{| s_act := Emit o e; s_redirs := []; s_link := Pipe |}; {| s_act := act; s_redirs := []; s_link := Semi |}].
-
-Lemma file_get_set fs f d : file_get (file_set fs f d) f = Some d.
-Proof.
-  induction fs as [|[g d'] fs IH]; cbn.
-  - rewrite N.eqb_refl. reflexivity.
-  - destruct (N.eqb_spec f g) as [->|NE]; cbn.
-    + rewrite N.eqb_refl. reflexivity.
-    + destruct (N.eqb_spec f g); [congruence|exact IH].
-Qed.
-
-Lemma file_get_set_other fs f g d : f <> g -> file_get (file_set fs g d) f = file_get fs f.
-Proof.
-  intro NE. induction fs as [|[h d'] fs IH]; cbn.
-  - destruct (N.eqb_spec f g); [congruence|reflexivity].
-  - destruct (N.eqb_spec g h) as [->|NE2]; cbn.
-    + destruct (N.eqb_spec f h); [congruence|reflexivity].
-    + destruct (N.eqb_spec f h); [reflexivity|exact IH].
-Qed.
 
 Lemma truncate_exact o e f fs :
   exists st, run_block (to_file (Trunc f) o e) fs = Ok st /\
     file_get (st_fs st) f = Some o /\ (forall g, g <> f -> file_get (st_fs st) g = file_get fs g) /\
     st_out st = [] /\ st_err st = e.
 Proof.
-  destruct (run_block_expected (to_file (Trunc f) o e) fs eq_refl) as (st & R & H).
-  exists st. split; [exact R|]. cbn in H. rewrite !app_nil_r in H. destruct H as (Ho & He & Hf & _).
+  destruct (run_block_expected (to_file (Trunc f) o e) fs eq_refl) as (st & R & Ho & He & Hk & Hf & _).
+  exists st. split; [exact R|]. cbn in Ho, He, Hf. repeat rewrite app_nil_r in Ho. repeat rewrite app_nil_r in He. repeat rewrite app_nil_r in Hf.
   rewrite Hf, Ho, He. repeat split.
   - apply file_get_set.
   - intros g NE. apply file_get_set_other. exact NE.
@@ -320,19 +396,27 @@ Lemma append_exact o e f fs :
     (forall g, g <> f -> file_get (st_fs st) g = file_get fs g) /\
     st_out st = [] /\ st_err st = e.
 Proof.
-  destruct (run_block_expected (to_file (Append f) o e) fs eq_refl) as (st & R & H).
-  exists st. split; [exact R|]. cbn in H. rewrite !app_nil_r in H. destruct H as (Ho & He & Hf & _).
+  destruct (run_block_expected (to_file (Append f) o e) fs eq_refl) as (st & R & Ho & He & Hk & Hf & _).
+  exists st. split; [exact R|]. cbn in Ho, He, Hf. repeat rewrite app_nil_r in Ho. repeat rewrite app_nil_r in He. repeat rewrite app_nil_r in Hf.
   rewrite Hf, Ho, He. repeat split.
   - apply file_get_set.
   - intros g NE. apply file_get_set_other. exact NE.
 Qed.
 
-(* ---------- the defect that was fixed (F33) ---------- *)
-(* createProcess used to wire `<!out>` to p.Next.Stdin.  For a command that is not
+(* ---------- the defects that were fixed ---------- *)
+(* F33: createProcess used to wire `<!out>` to p.Next.Stdin.  For a command that is not
    followed by a pipe that stream is the next command's (or the block's own) stdin. *)
 Definition wire_old_bang_out (n i : nat) : stream := next_stdin n i.
 
 Lemma old_wiring_refuted :
   wire_old_bang_out 1 0 = SParentIn /\
   stream_of 0 (doc_err {| s_act := Emit [] [101]; s_redirs := [R_bout]; s_link := Semi |}) = SParentOut.
+Proof. split; reflexivity. Qed.
+
+(* F33b: `<err>` used to be p.Next.Stderr, the NEXT command's compile-time stderr.  When that
+   command has a ` ? ` pipe of its own this is the stdin of the command after it:
+   `a <err>; b ? c` delivered a's stdout to c. *)
+Lemma old_err_wiring_refuted :
+  old_err_target 3 0 (Some QPipe) = SStdin 2 /\
+  stream_of 0 (doc_out {| s_act := Emit [111] []; s_redirs := [R_err]; s_link := Semi |}) = SParentErr.
 Proof. split; reflexivity. Qed.
